@@ -1,4 +1,4 @@
-import FrappyProofs.Lemmas.Persist
+import FrappyProofs.Lemmas.PersistReload
 /-
 C17 — property theorems (nothing but property theorems and their non-vacuity examples).
 -/
@@ -345,6 +345,232 @@ theorem roundtrip (env : Env P N V) (ps : List (Param V)) (dflt : String → V)
       simp only [List.lookup_cons, this]
       exact ih h hkeys2.2
 
+/-! ## reloading in a running module -/
+
+/-- `loadParameters()` in any state of the module (any pending writes, any file content, with or without an I/O fault
+in the save it may trigger): every persistent parameter with a usable stored value ends with that value — or, if its
+write method refuses the value, keeps the one it had; entries that are unusable stop nothing.  Hypotheses: distinct
+parameter names, `json.load` dictionaries have distinct keys, a write method hands back unchanged a value that an
+import produced (or refuses it). -/
+theorem reload_restores (env : Env P N V) (ms : MState N V) (file : Option Bytes) (fault : Option Fault)
+    (held : String → List V)
+    (hnames : (ms.params.map (·.name)).Nodup)
+    (hkeys : ∀ b kv, env.parse b = some (.obj kv) → (kv.map Prod.fst).Nodup)
+    (hidem : ∀ n j v v', env.imp n j = some v → env.wval n v = some v' → v' = v) :
+    ReloadRestores env.parse env.imp env.wval file
+      (ms.params.map (fun p => ⟨p.name, p.persistent, p.hasWrite, p.value, held p.name,
+        (valueOf (loadParameters env ms file fault).ms.params p.name).getD p.value⟩)) := by
+  intro o ho hpers
+  obtain ⟨p, hp, rfl⟩ := List.mem_map.1 ho
+  simp only at hpers ⊢
+  have hfind := findParam_of_mem ms.params hnames p hp
+  have hraw := loadRaw_keys_nodup env.parse file hkeys
+  have hany : (ms.params.map (fun p => (⟨p.name, p.persistent, p.hasWrite, p.value, held p.name,
+        (valueOf (loadParameters env ms file fault).ms.params p.name).getD p.value⟩ : ReloadObs V))).any
+        (fun q => q.name == p.name && q.persistent) = true := by
+    rw [List.any_map]
+    have := any_persistent ms.params hnames p hp
+    simpa [Function.comp_def, hpers] using this
+  rw [storedValue_eq]
+  simp only [hany, if_true]
+  rw [← lookup_loaded ms.params env.imp _ hraw p hfind hpers]
+  unfold ReloadedTo valueOf
+  rw [loadParameters_find env ms file fault p.name p hfind hraw]
+  cases hl : (loadEntries ms.params env.imp (loadRaw env.parse file)).lookup p.name with
+  | none => trivial
+  | some v =>
+    obtain ⟨j, _, hj⟩ := Option.bind_eq_some_iff.1 ((lookup_loaded ms.params env.imp _ hraw p hfind hpers).symm.trans hl)
+    simp only [Option.map_some, Option.getD_some]
+    cases hw : p.hasWrite
+    · left; simp
+    · cases hv : env.wval p.name v with
+      | none => right; simp
+      | some v' => left; simp [hidem _ _ _ _ hj hv]
+
+/-- `believed_on_disk` for the whole module machine: after start-up (from any file, with or without a fault in its
+save) and any history of `set` / `saveParameters` / `writeInitParams` / `loadParameters` / `factory_reset` actions, each
+with or without an I/O fault in whatever saves it triggers, `persistentData` is exactly what a restart would read from
+the file.  (`Codec`: the snapshot of any value assignment of the class reads back as written.) -/
+theorem believed_on_disk_world (env : Env P N V) (htt : env.tgt ≠ env.tmp) (ps : List (Param V))
+    (wd0 : List (String × V)) (fs0 : FS P) (fault : Option Fault) (hist : List (Act V × Option Fault))
+    (hc : Codec env ps) :
+    let o := startUp env ps wd0 (fs0 env.tgt) fault
+    let w := World.run env ⟨o.ms, applyEvs fs0 o.evs⟩ hist
+    loadRaw env.parse (w.fs env.tgt) = w.ms.believed :=
+  (world_run_good env ps htt hc hist _ (startUp_good env ps htt hc wd0 fs0 fault)).disk
+
+/-- Start-up that returns normally leaves a file that is current: it reads back as the snapshot of the values start-up
+decided (configured > stored > default) — or as something Python-`==` to it, in which case nothing was written. -/
+theorem startup_file_current (env : Env P N V) (htt : env.tgt ≠ env.tmp) (ps : List (Param V))
+    (wd0 : List (String × V)) (fs0 : FS P) (fault : Option Fault) (hc : Codec env ps) :
+    let o := startUp env ps wd0 (fs0 env.tgt) fault
+    o.raised = false →
+      loadRaw env.parse (applyEvs fs0 o.evs env.tgt) = exportAll env o.ms.params ∨
+      env.same (exportAll env o.ms.params) (loadRaw env.parse (applyEvs fs0 o.evs env.tgt)) = true := by
+  intro o hraised
+  have hgood := startUp_good env ps htt hc wd0 fs0 fault
+  rw [hgood.disk]
+  -- what start-up believes afterwards
+  have hparams : o.ms.params = ps.map (startParam (loadEntries ps env.imp (loadRaw env.parse (fs0 env.tgt)))) :=
+    startUp_params env ps wd0 _ fault
+  rw [hparams]
+  simp only [o, startUp, doSave, saveStep] at hraised ⊢
+  split
+  · right; assumption
+  · rename_i hs
+    simp only [hs] at hraised
+    have hnr := saveRun_not_renamed env.tgt env.tmp
+      (env.ser (exportAll env (ps.map (startParam (loadEntries ps env.imp (loadRaw env.parse (fs0 env.tgt))))))) fault
+    cases hr : (saveRun env.tgt env.tmp
+      (env.ser (exportAll env (ps.map (startParam (loadEntries ps env.imp (loadRaw env.parse (fs0 env.tgt))))))) fault).renamed
+    · rw [hnr hr] at hraised; cases hraised
+    · left; simp
+
+/-- `saved_when_done` for the whole module machine: in any state reached from start-up by any history (faults
+included), a `saveParameters()` that is not deferred (no write pending) and returns normally leaves a file that reads
+back as the current values of the persistent parameters (or as something Python-`==` to them: then it wrote nothing). -/
+theorem save_leaves_current_file (env : Env P N V) (htt : env.tgt ≠ env.tmp) (ps : List (Param V))
+    (wd0 : List (String × V)) (fs0 : FS P) (f0 f : Option Fault) (hist : List (Act V × Option Fault))
+    (hc : Codec env ps) :
+    let o := startUp env ps wd0 (fs0 env.tgt) f0
+    let w := World.run env ⟨o.ms, applyEvs fs0 o.evs⟩ hist
+    let s := act env w.ms (w.fs env.tgt) .save f
+    w.ms.writeDict = [] → s.raised = false →
+      loadRaw env.parse (applyEvs w.fs s.evs env.tgt) = exportAll env w.ms.params ∨
+      env.same (exportAll env w.ms.params) (loadRaw env.parse (applyEvs w.fs s.evs env.tgt)) = true := by
+  intro o w s hwd hraised
+  have hgood : Good env ps w.fs w.ms :=
+    world_run_good env ps htt hc hist _ (startUp_good env ps htt hc wd0 fs0 f0)
+  have hs : s = doSave env w.ms f := by simp [s, act, saveParameters, hwd]
+  rw [hs] at hraised ⊢
+  exact doSave_current env ps htt hc w.fs w.ms f hgood hraised
+
+/-- The reload that follows start-up directly (the first poll finds the hardware power-cycled).  Whatever the file of
+the earlier run held and whatever the configuration gives now, a start-up that returned normally followed by
+`loadParameters()` (with or without an I/O fault in the save it triggers) leaves every persistent parameter with the
+value start-up decided; in particular a value given in the configuration is not overridden by the stored one.
+Hypotheses: distinct names; `Codec`; `json.load` gives distinct keys; a write method returns what it was given; the
+start values survive export + import; import respects Python `==` of decoded files (used only when start-up found
+nothing to write). -/
+theorem reload_after_startup_keeps_values (env : Env P N V) (htt : env.tgt ≠ env.tmp) (ps : List (Param V))
+    (wd0 : List (String × V)) (fs0 : FS P) (f0 f1 : Option Fault)
+    (hnames : (ps.map (·.name)).Nodup) (hc : Codec env ps)
+    (hkeys : ∀ b kv, env.parse b = some (.obj kv) → (kv.map Prod.fst).Nodup)
+    (hidem : ∀ n j v v', env.imp n j = some v → env.wval n v = some v' → v' = v)
+    (hsame : ∀ d d', env.same d d' = true → ∀ n, (d'.lookup n).bind (env.imp n) = (d.lookup n).bind (env.imp n)) :
+    let o := startUp env ps wd0 (fs0 env.tgt) f0
+    let disk := applyEvs fs0 o.evs
+    let out := (loadParameters env o.ms (disk env.tgt) f1).ms.params
+    o.raised = false →
+    (∀ p ∈ o.ms.params, p.persistent = true → env.imp p.name (env.exp p.name p.value) = some p.value) →
+    (∀ p ∈ o.ms.params, p.persistent = true → valueOf out p.name = some p.value) ∧
+    ReloadFromThisRun (o.ms.params.map (fun p => ⟨p.name, p.persistent, p.hasWrite, p.value, [p.value],
+      (valueOf out p.name).getD p.value⟩)) := by
+  intro o disk out hraised hlaw
+  have hmain : ∀ p ∈ o.ms.params, p.persistent = true → valueOf out p.name = some p.value := by
+    intro p hp hpers
+    have hnames' : (o.ms.params.map (·.name)).Nodup := by rw [startUp_names]; exact hnames
+    have hfind := findParam_of_mem o.ms.params hnames' p hp
+    have hraw := loadRaw_keys_nodup env.parse (disk env.tgt) hkeys
+    -- the stored entry of p imports to the value p has
+    have hentry : ((loadRaw env.parse (disk env.tgt)).lookup p.name).bind (env.imp p.name) = some p.value := by
+      rcases startup_file_current env htt ps wd0 fs0 f0 hc hraised with h | h
+      · rw [h, lookup_exportAll env o.ms.params hnames' p hp hpers]
+        exact hlaw p hp hpers
+      · rw [hsame _ _ h, lookup_exportAll env o.ms.params hnames' p hp hpers]
+        exact hlaw p hp hpers
+    have hl : (loadEntries o.ms.params env.imp (loadRaw env.parse (disk env.tgt))).lookup p.name = some p.value := by
+      rw [lookup_loaded o.ms.params env.imp _ hraw p hfind hpers]; exact hentry
+    simp only [out, valueOf]
+    rw [loadParameters_find env o.ms (disk env.tgt) f1 p.name p hfind hraw, hl]
+    simp only [Option.map_some]
+    cases hw : p.hasWrite
+    · simp
+    · cases hv : env.wval p.name p.value with
+      | none => simp
+      | some v' => simp [hidem _ _ _ _ (hlaw p hp hpers) hv]
+  refine ⟨hmain, ?_⟩
+  intro ob hob hpers
+  obtain ⟨p, hp, rfl⟩ := List.mem_map.1 hob
+  simp only at hpers ⊢
+  rw [hmain p hp hpers]
+  simp
+
+/-- "Values given in the configuration take precedence over stored ones", for the whole run of a module: start-up
+(from any file of an earlier run, any configuration) that returned normally, then ANY history of `set` /
+`saveParameters` / `writeInitParams` / `loadParameters` / `factory_reset` actions, each with or without an I/O fault in
+the saves it triggers, then `loadParameters()`: every persistent parameter ends with a value it has had in this run —
+at the end of start-up (configured > stored > default) or after one of the actions.  A value that only the earlier
+run had stored never comes back.  Hypotheses as for `reload_after_startup_keeps_values`, with the codec law for all
+values. -/
+theorem reload_from_this_run (env : Env P N V) (htt : env.tgt ≠ env.tmp) (ps : List (Param V))
+    (wd0 : List (String × V)) (fs0 : FS P) (f0 f1 : Option Fault) (hist : List (Act V × Option Fault))
+    (hnames : (ps.map (·.name)).Nodup) (hc : Codec env ps)
+    (hkeys : ∀ b kv, env.parse b = some (.obj kv) → (kv.map Prod.fst).Nodup)
+    (hidem : ∀ n j v v', env.imp n j = some v → env.wval n v = some v' → v' = v)
+    (hlaw : ∀ n v, env.imp n (env.exp n v) = some v)
+    (hsame : ∀ d d', env.same d d' = true → ∀ n, (d'.lookup n).bind (env.imp n) = (d.lookup n).bind (env.imp n)) :
+    let o := startUp env ps wd0 (fs0 env.tgt) f0
+    let w0 : World P N V := ⟨o.ms, applyEvs fs0 o.evs⟩
+    let w := World.run env w0 hist
+    let out := (loadParameters env w.ms (w.fs env.tgt) f1).ms.params
+    o.raised = false →
+    ReloadFromThisRun (w.ms.params.map (fun p => ⟨p.name, p.persistent, p.hasWrite, p.value,
+      (List.range (hist.length + 1)).map (fun i => (valueOf (World.run env w0 (hist.take i)).ms.params p.name).getD p.value),
+      (valueOf out p.name).getD p.value⟩)) := by
+  intro o w0 w out hraised
+  have hnames0 : (o.ms.params.map (·.name)).Nodup := by rw [startUp_names]; exact hnames
+  have hgood0 : Good env ps w0.fs w0.ms := startUp_good env ps htt hc wd0 fs0 f0
+  -- at the end of start-up the file holds the start values
+  have hwithin0 : Within env (fun n v => valueOf o.ms.params n = some v) w0.ms := by
+    have hval : ∀ n p, findParam w0.ms.params n = some p → valueOf o.ms.params n = some p.value := by
+      intro n p hf
+      unfold valueOf
+      rw [show findParam o.ms.params n = some p from hf]; rfl
+    refine ⟨fun n p hf _ => hval n p hf, fun n p hf hpers => ?_⟩
+    obtain ⟨hmem, hname⟩ := mem_of_findParam hf
+    refine ⟨p.value, ?_, hval n p hf⟩
+    rw [← hgood0.disk, ← hname]
+    rcases startup_file_current env htt ps wd0 fs0 f0 hc hraised with h | h
+    · rw [h, lookup_exportAll env o.ms.params hnames0 p hmem hpers]; exact hlaw _ _
+    · rw [hsame _ _ h, lookup_exportAll env o.ms.params hnames0 p hmem hpers]; exact hlaw _ _
+  have hwithin := world_run_within env ps htt hc hlaw hist w0 _ hgood0 hnames0 hwithin0
+  have hgood : Good env ps w.fs w.ms := world_run_good env ps htt hc hist w0 hgood0
+  have hnamesw : (w.ms.params.map (·.name)).Nodup := by
+    rw [world_run_names]; exact hnames0
+  -- every value of this run is in the list of the observation
+  have hheld : ∀ (p : Param V) (x : V),
+      (valueOf o.ms.params p.name = some x ∨ Visited env w0 hist p.name x) →
+      x ∈ (List.range (hist.length + 1)).map
+        (fun i => (valueOf (World.run env w0 (hist.take i)).ms.params p.name).getD p.value) := by
+    intro p x hx
+    rcases hx with hx | ⟨i, hi, hx⟩
+    · exact List.mem_map.2 ⟨0, by simp, by simp [World.run, w0, hx]⟩
+    · exact List.mem_map.2 ⟨i, by simp; omega, by simp [hx]⟩
+  intro ob hob hpers
+  obtain ⟨p, hp, rfl⟩ := List.mem_map.1 hob
+  simp only at hpers ⊢
+  have hfind := findParam_of_mem w.ms.params hnamesw p hp
+  have hraw := loadRaw_keys_nodup env.parse (w.fs env.tgt) hkeys
+  obtain ⟨v, hv, hHv⟩ := hwithin.stored p.name p hfind hpers
+  have hl : (loadEntries w.ms.params env.imp (loadRaw env.parse (w.fs env.tgt))).lookup p.name = some v := by
+    rw [lookup_loaded w.ms.params env.imp _ hraw p hfind hpers, hgood.disk]; exact hv
+  apply hheld p
+  have hX : (valueOf out p.name).getD p.value =
+      ((if p.hasWrite then env.wval p.name v else some v)).getD p.value := by
+    simp only [out, valueOf]
+    rw [loadParameters_find env w.ms (w.fs env.tgt) f1 p.name p hfind hraw, hl]
+    simp
+  rw [hX]
+  have hcur := hwithin.cur p.name p hfind hpers
+  cases hw : p.hasWrite
+  · simp only [Bool.false_eq_true, if_false, Option.getD_some]; exact hHv
+  · cases hwv : env.wval p.name v with
+    | none => simp only [if_true, Option.getD_none]; exact hcur
+    | some v' =>
+      obtain ⟨j, _, hj⟩ := Option.bind_eq_some_iff.1 hv
+      simp only [if_true, Option.getD_some, hidem _ _ _ _ hj hwv]; exact hHv
+
 end loading
 
 /-! ## non-vacuity -/
@@ -421,5 +647,91 @@ example :
   · intro b kv h
     simp only [Option.some.injEq, JV.obj.injEq] at h
     subst h; decide
+
+/-! ### non-vacuity of the reload theorems
+
+One persistent parameter "a" (with a write method that refuses values above 100) and a plain parameter "b"; numbers
+are written in unary, so every snapshot reads back (`Codec`): `exEnv`, `exParams`, `exCodec`, `exLaws` in
+`Lemmas/PersistReload`. -/
+
+/-- `reload_after_startup_keeps_values`, `reload_from_this_run`, `startup_file_current`, `believed_on_disk_world` on the scenario of the statement's
+precedence clause: the earlier run stored a = 3, the configuration now gives a = 5.  Start-up replaces the file (the
+save performs 5 operations), and the reload that follows leaves a = 5; all hypotheses of the theorems hold. -/
+example :
+    let fs0 : FS Nat := fun p => if p = 0 then some [1, 1, 1] else none
+    let o := startUp exEnv exParams [("a", 5)] (fs0 exEnv.tgt) none
+    let disk := applyEvs fs0 o.evs
+    o.raised = false ∧ o.evs.length = 5 ∧ disk 0 = some [1, 1, 1, 1, 1] ∧
+    (∀ p ∈ o.ms.params, p.persistent = true → exEnv.imp p.name (exEnv.exp p.name p.value) = some p.value) ∧
+    valueOf (loadParameters exEnv o.ms (disk exEnv.tgt) none).ms.params "a" = some 5 ∧
+    storedValue exEnv.parse exEnv.imp (fun n => n == "a") (fs0 0) "a" = some 3 := by
+  refine ⟨by decide +kernel, by decide +kernel, by decide +kernel, ?_, by decide +kernel, by decide +kernel⟩
+  intro p _ _
+  exact exLaws.2.2.2.2.2 _ _
+
+/-- `reload_restores` on two non-trivial states: the file holds a = 9: restored (through the write method); the file
+holds a = 200, which the write method refuses: the parameter keeps 5 (and the module goes on) -/
+example :
+    let ms : MState Nat Nat := ⟨exParams, [("b", 1)], [], []⟩
+    valueOf (loadParameters exEnv ms (some (List.replicate 9 1)) none).ms.params "a" = some 9 ∧
+    valueOf (loadParameters exEnv ms (some (List.replicate 200 1)) (some ⟨2, []⟩)).ms.params "a" = some 5 ∧
+    (loadParameters exEnv ms (some (List.replicate 9 1)) none).writes = [("a", 9)] := by
+  refine ⟨by decide +kernel, by decide +kernel, by decide +kernel⟩
+
+/-- all hypotheses of `reload_after_startup_keeps_values` (and with them those of `believed_on_disk_world` and
+`startup_file_current`) hold in that scenario, so its conclusion is obtained from the theorem itself -/
+example :
+    let fs0 : FS Nat := fun p => if p = 0 then some [1, 1, 1] else none
+    let o := startUp exEnv exParams [("a", 5)] (fs0 exEnv.tgt) none
+    ∀ p ∈ o.ms.params, p.persistent = true →
+      valueOf (loadParameters exEnv o.ms (applyEvs fs0 o.evs exEnv.tgt) (some ⟨1, [1]⟩)).ms.params p.name = some p.value := by
+  intro fs0 o
+  exact (reload_after_startup_keeps_values exEnv exLaws.1 exParams [("a", 5)] fs0 none (some ⟨1, [1]⟩) exLaws.2.1 exCodec
+    exLaws.2.2.1 exLaws.2.2.2.1 exLaws.2.2.2.2.1 (by decide +kernel) (fun p _ _ => exLaws.2.2.2.2.2 _ _)).1
+
+/-- `reload_from_this_run` applied in that scenario to an arbitrary history; and a concrete history in which the reload
+does change the parameter — back to a value of this run (9 was assigned but never saved, the file holds 5), not to the
+3 of the earlier run -/
+example (hist : List (Act Nat × Option Fault)) (f1 : Option Fault) :
+    let fs0 : FS Nat := fun p => if p = 0 then some [1, 1, 1] else none
+    let o := startUp exEnv exParams [("a", 5)] (fs0 exEnv.tgt) none
+    let w0 : World Nat Nat Nat := ⟨o.ms, applyEvs fs0 o.evs⟩
+    ReloadFromThisRun ((World.run exEnv w0 hist).ms.params.map (fun p => ⟨p.name, p.persistent, p.hasWrite, p.value,
+      (List.range (hist.length + 1)).map (fun i => (valueOf (World.run exEnv w0 (hist.take i)).ms.params p.name).getD p.value),
+      (valueOf (loadParameters exEnv (World.run exEnv w0 hist).ms ((World.run exEnv w0 hist).fs exEnv.tgt) f1).ms.params p.name).getD p.value⟩)) ∧
+    (let w := World.run exEnv w0 [(.writeInit, none), (.set "a" 9, none)]
+     valueOf w.ms.params "a" = some 9 ∧
+     valueOf (loadParameters exEnv w.ms (w.fs exEnv.tgt) none).ms.params "a" = some 5) := by
+  intro fs0 o w0
+  exact ⟨reload_from_this_run exEnv exLaws.1 exParams [("a", 5)] fs0 none f1 hist exLaws.2.1 exCodec exLaws.2.2.1
+    exLaws.2.2.2.1 exLaws.2.2.2.2.2 exLaws.2.2.2.2.1 (by decide +kernel), by decide +kernel, by decide +kernel⟩
+
+/-- `save_leaves_current_file` in that scenario: after `writeInitParams` and a change of "a" to 9, the save writes
+the file that reads back 9 -/
+example :
+    let fs0 : FS Nat := fun p => if p = 0 then some [1, 1, 1] else none
+    let o := startUp exEnv exParams [("a", 5)] (fs0 exEnv.tgt) none
+    let w := World.run exEnv ⟨o.ms, applyEvs fs0 o.evs⟩ [(.writeInit, none), (.set "a" 9, none)]
+    let s := act exEnv w.ms (w.fs exEnv.tgt) .save none
+    w.ms.writeDict = [] ∧ s.raised = false ∧ s.evs.length = 5 ∧
+      loadRaw exEnv.parse (applyEvs w.fs s.evs exEnv.tgt) = exportAll exEnv w.ms.params := by
+  refine ⟨by decide +kernel, by decide +kernel, by decide +kernel, ?_⟩
+  have h := save_leaves_current_file exEnv exLaws.1 exParams [("a", 5)]
+    (fun p => if p = 0 then some [1, 1, 1] else none) none none [(.writeInit, none), (.set "a" 9, none)] exCodec
+    (by decide +kernel) (by decide +kernel)
+  rcases h with h | h
+  · exact h
+  · simp [exEnv] at h
+
+/-- … and `reload_restores` / `believed_on_disk_world` applied to them -/
+example (held : String → List Nat) (hist : List (Act Nat × Option Fault)) (fs0 : FS Nat) :
+    ReloadRestores exEnv.parse exEnv.imp exEnv.wval (some (List.replicate 9 1))
+      (exParams.map (fun p => ⟨p.name, p.persistent, p.hasWrite, p.value, held p.name,
+        (valueOf (loadParameters exEnv ⟨exParams, [("b", 1)], [], []⟩ (some (List.replicate 9 1)) none).ms.params p.name).getD p.value⟩)) ∧
+    (let o := startUp exEnv exParams [("a", 5)] (fs0 exEnv.tgt) (some ⟨3, []⟩)
+     let w := World.run exEnv ⟨o.ms, applyEvs fs0 o.evs⟩ hist
+     loadRaw exEnv.parse (w.fs exEnv.tgt) = w.ms.believed) :=
+  ⟨reload_restores exEnv ⟨exParams, [("b", 1)], [], []⟩ _ none held exLaws.2.1 exLaws.2.2.1 exLaws.2.2.2.1,
+   believed_on_disk_world exEnv exLaws.1 exParams [("a", 5)] fs0 (some ⟨3, []⟩) hist exCodec⟩
 
 end Frappy.Props.C17
